@@ -1311,7 +1311,9 @@ impl<'t, 'a, 'b> Gen<'t, 'a, 'b> {
         match pos {
             0 | 1 => {
                 // tuple element (before the call: held across it; after the call: control)
-                let (tt, els, idx) = if pos == 0 {
+                // (a copy of an expression containing `<!>` would print one uid on two lines: no control copy then)
+                let copyable = !format!("{:?}", held).contains("Unreachable(");
+                let (tt, els, idx) = if pos == 0 || !copyable {
                     (Ty::Tuple(vec![hty.clone(), ret.clone()]), vec![held, call], 0)
                 } else {
                     let held2 = held.clone();
@@ -1350,7 +1352,62 @@ impl<'t, 'a, 'b> Gen<'t, 'a, 'b> {
         self.cost(ctx, 12);
         let mut out = Vec::new();
         let fn_int = Ty::Fn(vec![], Box::new(Ty::Int), false);
-        match self.t.below(4) {
+        // a blob without function-typed fields and with an int field (scenario 4)
+        let plain_blob: Option<(usize, String)> = self.p.blobs.iter().enumerate().find_map(|(i, b)| {
+            if b.fields.iter().all(|f| !f.ty.is_fn() && !matches!(f.ty, Ty::Blob(_))) {
+                b.fields.iter().find(|f| f.ty == Ty::Int).map(|f| (i, f.name.clone()))
+            } else {
+                None
+            }
+        });
+        let which = match self.t.below(5) {
+            4 if plain_blob.is_none() => 1,
+            k => k,
+        };
+        match which {
+            4 => {
+                // an assignment whose target contains a re-entrant call: `pick(n - 1).f = <value of this activation>`
+                // (the recursive call runs the same assignment statement again, with another value)
+                let (bi, fname) = plain_blob.unwrap();
+                let bty = Ty::Blob(bi);
+                let k = self.t.range(2, 4) as usize;
+                let mut objs = Vec::new();
+                for _ in 0..k {
+                    let lit = self.literal(&bty, 1);
+                    let o = self.local("v", bty.clone(), false, false);
+                    out.push(Stmt::Def { var: o, mutable: false, value: lit });
+                    objs.push(o);
+                }
+                let n = self.fresh("p", Ty::Int, VarKind::Param, false);
+                let fty = Ty::Fn(vec![Ty::Int], Box::new(bty.clone()), false);
+                let pick = self.fresh("h", fty.clone(), VarKind::Local, false);
+                let mul = self.t.range(1, 9);
+                let add = self.t.range(0, 9);
+                let value = bin(BinOp::Add, Ty::Int, bin(BinOp::Mul, Ty::Int, var(&self.p, n), int(mul)), int(add));
+                let op = if self.t.chance(1, 4) { AssignOp::Add } else { AssignOp::Set };
+                let inner_call = e(bty.clone(), EKind::Call(Box::new(var(&self.p, pick)), vec![bin(BinOp::Sub, Ty::Int, var(&self.p, n), int(1))]));
+                let store = Stmt::Assign { target: LValue::Field(Box::new(inner_call), fname.clone()), op, value };
+                let guard = Stmt::Expr(e(
+                    Ty::Void,
+                    EKind::If(vec![(bin(BinOp::Gt, Ty::Bool, var(&self.p, n), int(0)), Block { stmts: vec![store], value: None })], None),
+                ));
+                let mut branches = Vec::new();
+                for (i, o) in objs.iter().enumerate().take(k - 1) {
+                    branches.push((
+                        bin(BinOp::Eq, Ty::Bool, var(&self.p, n), int(i as i64)),
+                        Block { stmts: vec![], value: Some(Box::new(var(&self.p, *o))) },
+                    ));
+                }
+                let last = Block { stmts: vec![], value: Some(Box::new(var(&self.p, objs[k - 1]))) };
+                let select = e(bty.clone(), EKind::If(branches, Some(last)));
+                let def = FnDef { params: vec![n], ret: bty.clone(), body: Block { stmts: vec![guard], value: Some(Box::new(select)) }, pure: false };
+                out.push(Stmt::Def { var: pick, mutable: false, value: e(fty, EKind::Lambda(Box::new(def))) });
+                let top = e(bty.clone(), EKind::Call(Box::new(var(&self.p, pick)), vec![int(k as i64 - 1)]));
+                out.push(print_stmt(e(Ty::Int, EKind::Field(Box::new(top), fname.clone()))));
+                for o in &objs {
+                    out.push(print_stmt(e(Ty::Int, EKind::Field(Box::new(var(&self.p, *o)), fname.clone()))));
+                }
+            }
             0 => {
                 // closures made in a loop, called afterwards
                 let k = self.t.range(1, 3);
@@ -1641,7 +1698,8 @@ impl<'t, 'a, 'b> Gen<'t, 'a, 'b> {
                 let t = self.value_ty(1);
                 let t = if t.eq_ok(&self.p) { t } else { Ty::Int };
                 let a = self.expr_c(&t, 2, ctx);
-                let b = if self.t.chance(2, 3) && !contains_call(&a) { a.clone() } else { self.expr_c(&t, 2, ctx) };
+                let copyable = !contains_call(&a) && !format!("{:?}", a).contains("Unreachable(");
+                let b = if self.t.chance(2, 3) && copyable { a.clone() } else { self.expr_c(&t, 2, ctx) };
                 Some(Stmt::Assert(a, b))
             }
             8 => {
